@@ -22,6 +22,7 @@ package raft
 
 import (
 	"bytes"
+	"context"
 	"crypto/sha256"
 	"encoding/hex"
 	"errors"
@@ -32,6 +33,7 @@ import (
 	"sort"
 	"strings"
 	"testing"
+	"time"
 
 	log "github.com/hashicorp/go-hclog"
 	raftchunking "github.com/hashicorp/go-raftchunking"
@@ -57,6 +59,8 @@ const (
 	c09ClassSnapshot    = "C09-snapshot-install-failed"
 	c09ClassErrClass    = "C09-conflict-error-class"
 	c09ClassHarnessSelf = "C09-harness-self-check"
+	c09ClassLeaderList  = "C09-leader-list-verification-entry-never-holds"
+	c09ClassLeaderErr   = "C09-leader-commit-error-class"
 )
 
 // ---------------------------------------------------------------------------
@@ -115,17 +119,21 @@ type c09Read struct {
 	Key     string `json:"key"`
 	Present bool   `json:"present"`
 	Val     string `json:"val,omitempty"`
+	Hash    []byte `json:"shipped_hash,omitempty"` // leader-produced entries: only the hash is known
 }
 
 type c09List struct {
 	Prefix string   `json:"prefix"`
 	After  string   `json:"after"`
 	Limit  int      `json:"verify_limit"`
-	Items  []string `json:"observed"`
+	Items  []string `json:"observed,omitempty"`
+	Hash   []byte   `json:"shipped_hash,omitempty"`
+	Repr   string   `json:"-"`
 }
 
 type c09Stale struct {
 	Op   string   `json:"op"`
+	List bool     `json:"is_list,omitempty"`
 	Mods []uint64 `json:"modified_at"`
 }
 
@@ -202,14 +210,20 @@ func (l *c09Log) render() []string {
 		case "txn":
 			s += fmt.Sprintf("txn start=%d", c.Start)
 			for _, r := range c.Reads {
-				if r.Present {
+				if r.Hash != nil {
+					s += fmt.Sprintf(" verify(%s #%x)", r.Key, r.Hash[1:5])
+				} else if r.Present {
 					s += fmt.Sprintf(" verify(%s==%s)", r.Key, c09ShortVal(r.Val))
 				} else {
 					s += fmt.Sprintf(" verify(%s absent)", r.Key)
 				}
 			}
 			for _, li := range c.Lists {
-				s += fmt.Sprintf(" verifylist(%q after %q limit %d == %v)", li.Prefix, li.After, li.Limit, li.Items)
+				if li.Hash != nil {
+					s += fmt.Sprintf(" verifylist(%q after %q limit %d #%x)", li.Prefix, li.After, li.Limit, li.Hash[1:5])
+				} else {
+					s += fmt.Sprintf(" verifylist(%q after %q limit %d == %v)", li.Prefix, li.After, li.Limit, li.Items)
+				}
 			}
 			for _, w := range c.Writes {
 				if w.Del {
@@ -218,9 +232,12 @@ func (l *c09Log) render() []string {
 					s += fmt.Sprintf(" put %s=%s", w.Key, c09ShortVal(w.Val))
 				}
 			}
-			if c.Commit {
+			switch {
+			case c.Commit && len(c.Stale) > 0:
+				s += fmt.Sprintf(" => leader: commit (full verification fails: %v)", c.Stale)
+			case c.Commit:
 				s += " => truth: commit"
-			} else {
+			default:
 				s += fmt.Sprintf(" => truth: conflict %v", c.Stale)
 			}
 		}
@@ -242,6 +259,60 @@ func (l *c09Log) digest() string {
 		fmt.Fprintf(h, "%d/%d/%x/%x|", e.Log.Index, e.Log.Term, e.Log.Data, e.Log.Extensions)
 	}
 	return hex.EncodeToString(h.Sum(nil)[:10])
+}
+
+
+// c09Verify is ground truth for one transaction: every verification entry
+// evaluated in full against the map replay `cur` (the state just before the
+// transaction's log position `at`). For each entry that does not hold it also
+// reports at which FSM-visible indexes inside the window (start, at) a
+// committed command wrote a key the entry covers.
+func (l *c09Log) c09Verify(cur c09State, c *c09Cmd, vis []uint64, at uint64) []c09Stale {
+	var stale []c09Stale
+	modsOf := func(match func(string) bool) []uint64 {
+		var m []uint64
+		for _, v := range vis {
+			if v <= c.Start || v >= at {
+				continue
+			}
+			for k := range l.Mods[v] {
+				if match(k) {
+					m = append(m, v)
+					break
+				}
+			}
+		}
+		return m
+	}
+	for _, r := range c.Reads {
+		v, ok := cur[r.Key]
+		holds := ok == r.Present && v == r.Val
+		if r.Hash != nil {
+			var val []byte
+			if ok {
+				val = []byte(v)
+			}
+			h, err := createVerificationEntryOfType(r.Hash[0], r.Key, val)
+			holds = err == nil && bytes.Equal(h, r.Hash)
+		}
+		if !holds {
+			key := r.Key
+			stale = append(stale, c09Stale{Op: "read " + key, Mods: modsOf(func(k string) bool { return k == key })})
+		}
+	}
+	for _, li := range c.Lists {
+		got := c09RefList(cur, li.Prefix, li.After, li.Limit)
+		holds := strings.Join(got, "\n") == strings.Join(li.Items, "\n")
+		if li.Hash != nil {
+			h, err := createVerificationEntryOfType(li.Hash[0], li.Repr, []byte(strings.Join(got, "\n")))
+			holds = err == nil && bytes.Equal(h, li.Hash)
+		}
+		if !holds {
+			p := li.Prefix
+			stale = append(stale, c09Stale{Op: fmt.Sprintf("list %q after %q limit %d", p, li.After, li.Limit), List: true, Mods: modsOf(func(k string) bool { return strings.HasPrefix(k, p) })})
+		}
+	}
+	return stale
 }
 
 // ---------------------------------------------------------------------------
@@ -310,39 +381,8 @@ func c09Generate(rng *kit.Rand, o c09GenOpts) *c09Log {
 		case "put", "del":
 			c.Commit = true
 		case "txn":
-			c.Commit = true
-			c.Stale = nil
-			modsOf := func(match func(string) bool) []uint64 {
-				var m []uint64
-				for _, v := range visible {
-					if v <= c.Start || v >= i {
-						continue
-					}
-					for k := range l.Mods[v] {
-						if match(k) {
-							m = append(m, v)
-							break
-						}
-					}
-				}
-				return m
-			}
-			for _, r := range c.Reads {
-				v, ok := cur[r.Key]
-				if ok != r.Present || v != r.Val {
-					c.Commit = false
-					key := r.Key
-					c.Stale = append(c.Stale, c09Stale{Op: "read " + key, Mods: modsOf(func(k string) bool { return k == key })})
-				}
-			}
-			for _, li := range c.Lists {
-				got := c09RefList(cur, li.Prefix, li.After, li.Limit)
-				if strings.Join(got, "\n") != strings.Join(li.Items, "\n") {
-					c.Commit = false
-					p := li.Prefix
-					c.Stale = append(c.Stale, c09Stale{Op: fmt.Sprintf("list %q", p), Mods: modsOf(func(k string) bool { return strings.HasPrefix(k, p) })})
-				}
-			}
+			c.Stale = l.c09Verify(cur, c, visible, i)
+			c.Commit = len(c.Stale) == 0
 		}
 		if c.Commit {
 			for _, w := range c.Writes {
@@ -697,7 +737,12 @@ type c09Env struct {
 	nfsm   int
 }
 
-func c09NewEnv(t testing.TB) *c09Env {
+func c09NewEnv(t *testing.T) *c09Env {
+	// bbolt's initial mmap size is a documented tunable; the 100 GB default costs
+	// most of the run time when thousands of short-lived databases are opened.
+	if os.Getenv("BAO_RAFT_INITIAL_MMAP_SIZE") == "" {
+		t.Setenv("BAO_RAFT_INITIAL_MMAP_SIZE", "0")
+	}
 	root := os.TempDir()
 	if st, err := os.Stat("/dev/shm"); err == nil && st.IsDir() {
 		root = "/dev/shm"
@@ -1092,7 +1137,24 @@ func c09Drive(env *c09Env, l *c09Log, plan c09Plan, rng *kit.Rand, snaps map[int
 					// verdict differs from ground truth
 					extra := map[string]any{"command": c, "index": e.Log.Index, "replica_verdict": map[bool]string{true: "conflict", false: "commit"}[conflict]}
 					if conflict {
-						fail(c09ClassRejects, fmt.Sprintf("transaction at index %d (start %d): replica reports a conflict, but every verification entry holds against the replayed log", e.Log.Index, c.Start), extra)
+						if len(c.Stale) == 0 {
+							fail(c09ClassRejects, fmt.Sprintf("transaction at index %d (start %d): replica reports a conflict, but every verification entry holds against the replayed log", e.Log.Index, c.Start), extra)
+							return run
+						}
+						// leader-produced log: the leader committed (fast path) although full verification fails
+						never := true
+						for _, st := range c.Stale {
+							if !st.List || len(st.Mods) > 0 {
+								never = false
+							}
+						}
+						class := c09ClassRejects
+						why := ""
+						if never {
+							class = c09ClassLeaderList
+							why = "; the failing entries are list verifications under whose prefix nothing was written between the transaction's start and its log position: the leader shipped an entry that does not even hold on unchanged storage, so the verdict depends on whether a replica takes the fast path"
+						}
+						fail(class, fmt.Sprintf("transaction at index %d (start %d): the leader reported COMMIT to its client and never-restarted replicas commit, this replica reports a conflict (full verification fails: %v)%s", e.Log.Index, c.Start, c.Stale, why), extra)
 						return run
 					}
 					class := c09ClassCommits
@@ -1487,7 +1549,7 @@ func TestVerif_C09_Logs(t *testing.T) {
 	r := kit.NewResult(t, "c09-logs", seed, "a case is one generated leader-consistent raft log (plain puts/deletes, transactions with honest read/list verification entries for a start index anywhere in the past, shipped LowestActiveIndex, chunked and unchunked encodings interleaved, term changes, configuration entries, index gaps) applied to a reference replica (one entry per batch) and R-1 further replicas differing in batching, restart, crash, local snapshot and snapshot-install position; non-trivial = the log contains both a transaction ground truth commits and one it rejects; distinct by log digest")
 	defer r.Write(t)
 	env := c09NewEnv(t)
-	ncases := kit.N(600, 18000)
+	ncases := kit.N(1000, 50000)
 	nrep := kit.N(6, 10)
 	shard, shards := kit.Shard()
 	sampled := 0
@@ -1516,18 +1578,18 @@ func TestVerif_C09_Logs(t *testing.T) {
 			r.Sample(map[string]any{"case": caseID, "log": l.render(), "replicas": plans})
 		}
 	}
-	// minimum observations (about half of what the unchanged tree yields); thorough runs 30x the cases
-	req := func(name string, quick int) { r.Require(name, int64(kit.N(quick, quick*25)/shards)) }
-	req("logs_with_conflicting_txn", 300)
-	req("txn_truth_commit", 1800)
-	req("txn_truth_conflict", 700)
-	req("txn_commit_despite_write_in_window", 150)
-	req("resets_inside_conflicting_txn_window", 500)
-	req("resets_install", 300)
-	req("resets_mid_chunked_op", 80)
-	req("batches_txn_not_first", 3500)
-	req("chunked_txns", 400)
-	req("replica_runs_checked_to_the_end", 1800)
+	// minimum observations (about half of what the unchanged tree yields); thorough runs 50x the cases
+	req := func(name string, quick int) { r.Require(name, int64(kit.N(quick, quick*40)/shards)) }
+	req("logs_with_conflicting_txn", 500)
+	req("txn_truth_commit", 3000)
+	req("txn_truth_conflict", 1100)
+	req("txn_commit_despite_write_in_window", 250)
+	req("resets_inside_conflicting_txn_window", 800)
+	req("resets_install", 500)
+	req("resets_mid_chunked_op", 130)
+	req("batches_txn_not_first", 6000)
+	req("chunked_txns", 700)
+	req("replica_runs_checked_to_the_end", 3000)
 }
 
 // ---------------------------------------------------------------------------
@@ -1539,7 +1601,7 @@ func TestVerif_C09_Small(t *testing.T) {
 	r := kit.NewResult(t, "c09-small", seed, "a case is one generated log of at most 8 raft entries applied under ALL partitions into batches (never-restarted replicas), a restart and a crash at EVERY position (entry-per-batch and maximal batches) and a snapshot install at EVERY position; non-trivial = contains a transaction that ground truth rejects and one it commits; distinct by log digest")
 	defer r.Write(t)
 	env := c09NewEnv(t)
-	ncases := kit.N(80, 2400)
+	ncases := kit.N(120, 4000)
 	shard, shards := kit.Shard()
 	sampled := 0
 	for i := 0; i < ncases; i++ {
@@ -1558,7 +1620,7 @@ func TestVerif_C09_Small(t *testing.T) {
 				o.Keys = []string{"a/k1", "a/d/x", "b/k1"} // few keys: most transactions overlap with other writers
 			}
 			l = c09Generate(rng, o)
-			if len(l.Entries) <= 8 && len(l.Entries) >= 3 {
+			if len(l.Entries) <= kit.N(8, 9) && len(l.Entries) >= 3 {
 				break
 			}
 		}
@@ -1605,9 +1667,409 @@ func TestVerif_C09_Small(t *testing.T) {
 		}
 	}
 	req := func(name string, quick int) { r.Require(name, int64(kit.N(quick, quick*25)/shards)) }
-	req("logs_with_conflicting_txn", 25)
-	req("partitions", 2500)
-	req("resets_inside_conflicting_txn_window", 300)
-	req("batches_txn_not_first", 3000)
-	req("replica_runs_checked_to_the_end", 3000)
+	req("logs_with_conflicting_txn", 35)
+	req("partitions", 3500)
+	req("resets_inside_conflicting_txn_window", 450)
+	req("batches_txn_not_first", 4500)
+	req("replica_runs_checked_to_the_end", 4500)
+}
+
+// ---------------------------------------------------------------------------
+// TestVerif_C09_LeaderLog: the log is produced by a real single-node raft
+// leader running real transactions; the verdict the leader reported to its
+// client is what every replica that replays the leader's raft log must reach.
+
+func c09Leader(t *testing.T, dir string) *RaftBackend {
+	conf := map[string]string{"path": dir, "trailing_logs": "100000", "node_id": "verif-leader"}
+	raw, err := NewRaftBackend(conf, log.NewNullLogger())
+	if err != nil {
+		t.Fatal(err)
+	}
+	b := raw.(*RaftBackend)
+	if err := b.Bootstrap([]Peer{{ID: b.NodeID(), Address: b.NodeID()}}); err != nil {
+		t.Fatal(err)
+	}
+	if err := b.SetupCluster(context.Background(), SetupOpts{}); err != nil {
+		t.Fatal(err)
+	}
+	deadline := time.Now().Add(60 * time.Second)
+	for b.raft.AppliedIndex() < 2 {
+		if time.Now().After(deadline) {
+			t.Fatal("leader did not come up")
+		}
+		time.Sleep(5 * time.Millisecond)
+	}
+	b.DisableAutopilot()
+	t.Cleanup(func() {
+		b.TeardownCluster(nil)
+		b.fsm.Close()
+	})
+	return b
+}
+
+type c09OpenTxn struct {
+	tx    physical.Transaction
+	wrote bool
+	steps []string
+}
+
+// c09LeaderWorkload drives the leader from one goroutine: plain writes and up
+// to three open read-write transactions whose operations interleave, so that
+// transactions commit with start indexes well in the past. Returns the
+// verdict per log index of every transaction that produced a log entry.
+func c09LeaderWorkload(r *kit.Result, b *RaftBackend, rng *kit.Rand, steps int) (verdicts map[uint64]bool, scripts map[uint64][]string, ok bool) {
+	ctx := context.Background()
+	verdicts = map[uint64]bool{}
+	scripts = map[uint64][]string{}
+	var open []*c09OpenTxn
+	finish := func(i int, commit bool) bool {
+		o := open[i]
+		open = append(open[:i], open[i+1:]...)
+		if !commit {
+			if err := o.tx.Rollback(ctx); err != nil {
+				r.Inconc("leader: rollback failed: %v", err)
+				return false
+			}
+			r.Count("leader_rollbacks", 1)
+			return true
+		}
+		before := b.AppliedIndex()
+		err := o.tx.Commit(ctx)
+		after := b.AppliedIndex()
+		switch {
+		case err == nil:
+		case errors.Is(err, physical.ErrTransactionCommitFailure):
+		default:
+			r.Violate(c09ClassLeaderErr, "", fmt.Sprintf("leader Commit returned an error that is neither nil nor the commit-failure class: %v", err), map[string]any{"script": o.steps})
+			return false
+		}
+		if after == before {
+			if o.wrote {
+				r.Inconc("leader: a writing transaction produced no log entry")
+				return false
+			}
+			return true
+		}
+		verdicts[after] = err == nil
+		scripts[after] = o.steps
+		if err == nil {
+			r.Count("leader_txn_commit", 1)
+		} else {
+			r.Count("leader_txn_conflict", 1)
+		}
+		return true
+	}
+	val := func() []byte { return []byte(kit.Pick(rng, c09Vals)) }
+	for s := 0; s < steps; s++ {
+		x := rng.Intn(100)
+		switch {
+		case x < 20:
+			k := kit.Pick(rng, c09Keys)
+			if err := b.Put(ctx, &physical.Entry{Key: k, Value: val()}); err != nil {
+				r.Inconc("leader put: %v", err)
+				return nil, nil, false
+			}
+		case x < 27:
+			if err := b.Delete(ctx, kit.Pick(rng, c09Keys)); err != nil {
+				r.Inconc("leader delete: %v", err)
+				return nil, nil, false
+			}
+		case x < 40:
+			if len(open) < 3 {
+				tx, err := b.BeginTx(ctx)
+				if err != nil {
+					r.Inconc("leader begin: %v", err)
+					return nil, nil, false
+				}
+				open = append(open, &c09OpenTxn{tx: tx, steps: []string{fmt.Sprintf("begin at applied index %d", b.AppliedIndex())}})
+			}
+		case x < 78:
+			if len(open) == 0 {
+				continue
+			}
+			o := kit.Pick(rng, open)
+			k := kit.Pick(rng, c09Keys)
+			var err error
+			switch y := rng.Intn(100); {
+			case y < 30:
+				var e *physical.Entry
+				e, err = o.tx.Get(ctx, k)
+				o.steps = append(o.steps, fmt.Sprintf("get %s -> %v", k, e != nil))
+			case y < 60:
+				p := kit.Pick(rng, c09Prefixes)
+				if rng.Chance(1, 8) {
+					p = ""
+				}
+				after := ""
+				if rng.Chance(25, 100) {
+					after = kit.Pick(rng, c09Afters)
+				}
+				limit := -1
+				if rng.Chance(45, 100) {
+					limit = 1 + rng.Intn(3)
+				}
+				var got []string
+				got, err = o.tx.ListPage(ctx, p, after, limit)
+				o.steps = append(o.steps, fmt.Sprintf("listpage %q after %q limit %d -> %v", p, after, limit, got))
+				r.Count("leader_txn_lists", 1)
+			case y < 85:
+				err = o.tx.Put(ctx, &physical.Entry{Key: k, Value: val()})
+				o.wrote = true
+				o.steps = append(o.steps, "put "+k)
+			default:
+				err = o.tx.Delete(ctx, k)
+				o.wrote = true
+				o.steps = append(o.steps, "delete "+k)
+			}
+			if err != nil {
+				r.Inconc("leader txn op: %v", err)
+				return nil, nil, false
+			}
+		case x < 95:
+			if len(open) > 0 && !finish(rng.Intn(len(open)), true) {
+				return nil, nil, false
+			}
+		default:
+			if len(open) > 0 && !finish(rng.Intn(len(open)), false) {
+				return nil, nil, false
+			}
+		}
+	}
+	for len(open) > 0 {
+		if !finish(0, true) {
+			return nil, nil, false
+		}
+	}
+	return verdicts, scripts, true
+}
+
+// c09FromLeader turns the leader's raft log into the harness's log form.
+// Verdicts are the leader's; Stale is what full verification says.
+func c09FromLeader(b *RaftBackend, verdicts map[uint64]bool) (*c09Log, error) {
+	l := &c09Log{Hist: map[uint64]c09State{0: {}}, Mods: map[uint64]map[string]struct{}{}, EndChunkKeys: map[string]struct{}{}}
+	first, err := b.logStore.FirstIndex()
+	if err != nil {
+		return nil, err
+	}
+	last, err := b.logStore.LastIndex()
+	if err != nil {
+		return nil, err
+	}
+	if first != 1 {
+		return nil, fmt.Errorf("leader log was truncated (first index %d)", first)
+	}
+	cur := c09State{}
+	vis := []uint64{0}
+	for i := first; i <= last; i++ {
+		lg := new(raft.Log)
+		if err := b.logStore.GetLog(i, lg); err != nil {
+			return nil, fmt.Errorf("GetLog(%d): %w", i, err)
+		}
+		if lg.Type != raft.LogCommand && lg.Type != raft.LogConfiguration {
+			continue // raft does not hand these to the state machine
+		}
+		if lg.Extensions != nil {
+			return nil, fmt.Errorf("unexpected chunked entry %d in the leader workload", i)
+		}
+		c := &c09Cmd{ID: len(l.Cmds), NChunks: 1, First: i, Final: i, Term: lg.Term, Commit: true}
+		if lg.Type == raft.LogConfiguration {
+			c.Kind = "config"
+		} else {
+			var ld LogData
+			if err := proto.Unmarshal(lg.Data, &ld); err != nil {
+				return nil, err
+			}
+			c.LAI = ld.LowestActiveIndex
+			isTx := len(ld.Operations) > 0 && ld.Operations[0].OpType == beginTxOp
+			if isTx {
+				c.Kind = "txn"
+			} else {
+				c.Kind = "put"
+			}
+			for _, op := range ld.Operations {
+				switch op.OpType {
+				case beginTxOp:
+					bp, err := parseBeginTxOpValue(op.Value)
+					if err != nil {
+						return nil, err
+					}
+					c.Start = bp.Index
+				case commitTxOp:
+				case putOp:
+					c.Writes = append(c.Writes, c09Write{Key: op.Key, Val: string(op.Value)})
+				case deleteOp:
+					c.Writes = append(c.Writes, c09Write{Del: true, Key: op.Key})
+					if !isTx {
+						c.Kind = "del"
+					}
+				case verifyReadOp:
+					c.Reads = append(c.Reads, c09Read{Key: op.Key, Hash: op.Value})
+				case verifyListOp:
+					lp, err := parseListVerifyParams(op.Key)
+					if err != nil {
+						return nil, err
+					}
+					c.Lists = append(c.Lists, c09List{Prefix: lp.Prefix, After: lp.After, Limit: lp.Limit, Hash: op.Value, Repr: op.Key})
+				default:
+					return nil, fmt.Errorf("entry %d: unexpected op type %d", i, op.OpType)
+				}
+			}
+			if isTx {
+				v, ok := verdicts[i]
+				if !ok {
+					return nil, fmt.Errorf("transaction entry at %d has no recorded client verdict", i)
+				}
+				c.Commit = v
+				c.Stale = l.c09Verify(cur, c, vis, i)
+			} else if len(c.Writes) != 1 {
+				return nil, fmt.Errorf("entry %d: plain command with %d operations", i, len(c.Writes))
+			}
+		}
+		mods := map[string]struct{}{}
+		if c.Commit {
+			for _, w := range c.Writes {
+				if w.Del {
+					delete(cur, w.Key)
+				} else {
+					cur[w.Key] = w.Val
+				}
+				mods[w.Key] = struct{}{}
+			}
+		}
+		l.Mods[i] = mods
+		l.Hist[i] = cur.clone()
+		vis = append(vis, i)
+		l.Cmds = append(l.Cmds, c)
+		l.Entries = append(l.Entries, &c09Entry{Ord: len(l.Entries), Log: lg, Cmd: c.ID, Visible: true})
+	}
+	return l, nil
+}
+
+func TestVerif_C09_LeaderLog(t *testing.T) {
+	seed := kit.Seed(9)
+	r := kit.NewResult(t, "c09-leaderlog", seed, "a real single-node raft leader runs a seeded workload of plain writes and up to three interleaved read-write transactions (Get/ListPage/Put/Delete through the transaction API); a case is one replica that replays the leader's own raft log under some batching and restart/crash/install position; its per-transaction verdicts must equal what the leader reported to its client and its bucket must equal the leader's; non-trivial = the replica was reset inside the window of a transaction the leader rejected; distinct by (leader session, plan)")
+	defer r.Write(t)
+	env := c09NewEnv(t)
+	shard, shards := kit.Shard()
+	sessions := kit.N(2, 12)
+	for sess := 0; sess < sessions; sess++ {
+		if sess%shards != shard {
+			continue
+		}
+		if oc := kit.OnlyCase(); oc != "" && !strings.HasPrefix(oc, fmt.Sprintf("K%d/", sess)) {
+			continue
+		}
+		rng := kit.NewRand(seed, 9_800_000+uint64(sess))
+		dir := filepath.Join(env.base, fmt.Sprintf("leader%d", sess))
+		if err := os.MkdirAll(dir, 0o700); err != nil {
+			t.Fatal(err)
+		}
+		b := c09Leader(t, dir)
+		verdicts, scripts, ok := c09LeaderWorkload(r, b, rng, kit.N(700, 1500))
+		if !ok {
+			continue
+		}
+		l, err := c09FromLeader(b, verdicts)
+		if err != nil {
+			r.Inconc("session %d: %v", sess, err)
+			continue
+		}
+		r.Count("leader_log_entries", len(l.Entries))
+		// the leader itself is a replica: its bucket must be the replay of its own verdicts
+		ld, err := c09Dump(b.fsm)
+		if err != nil {
+			r.Inconc("leader dump: %v", err)
+			continue
+		}
+		lastIdx := l.Entries[len(l.Entries)-1].Log.Index
+		if diff := c09DiffState(ld, l.Hist[lastIdx]); diff != "" {
+			r.Violate(c09ClassState, fmt.Sprintf("K%d/leader", sess), "the leader's own bucket differs from the replay of its log with the verdicts it reported: "+diff, map[string]any{"log": l.render()})
+			continue
+		}
+		// observation (not a verdict of this property): entries the leader committed on the fast path although they fail full verification
+		for _, c := range l.Cmds {
+			if c.Kind == "txn" && c.Commit && len(c.Stale) > 0 {
+				r.Count("leader_commits_failing_full_verification", 1)
+				never := true
+				for _, st := range c.Stale {
+					if !st.List || len(st.Mods) > 0 {
+						never = false
+					}
+				}
+				if never {
+					r.Count("leader_list_verification_entries_that_never_hold", 1)
+					if r.Get("leader_list_verification_entries_that_never_hold") == 1 {
+						r.Note("leader shipped a list verification entry that does not hold on unchanged storage (fast path commits it, full verification rejects it): index %d start %d script %v stale %v", c.Final, c.Start, scripts[c.Final], c.Stale)
+					}
+				} else {
+					r.Note("leader committed a transaction at index %d (start %d) that fails full verification with writes inside its window: %v script %v", c.Final, c.Start, c.Stale, scripts[c.Final])
+					r.Count("leader_commits_failing_full_verification_with_writes_in_window", 1)
+				}
+			}
+			if c.Kind == "txn" && !c.Commit && len(c.Stale) == 0 {
+				r.Violate(c09ClassRejects, fmt.Sprintf("K%d/leader", sess), fmt.Sprintf("the leader rejected the transaction at index %d (start %d) although every verification entry holds against the replay", c.Final, c.Start), map[string]any{"command": c, "script": scripts[c.Final], "log": l.render()})
+			}
+		}
+		c09LogStats(r, l)
+		// replicas
+		n := len(l.Entries)
+		var plans []c09Plan
+		plans = append(plans, c09Plan{Name: "batch-wide", MaxBatch: 64}, c09Plan{Name: "batch-narrow", MaxBatch: 3})
+		// reset positions: inside windows of transactions, preferably rejected ones
+		var cands, candsConf []int
+		for _, c := range l.Cmds {
+			if c.Kind != "txn" {
+				continue
+			}
+			for i, e := range l.Entries {
+				if e.Log.Index > c.Start && e.Log.Index < c.Final && i+1 < n {
+					cands = append(cands, i+1)
+					if !c.Commit || len(c.Stale) > 0 {
+						candsConf = append(candsConf, i+1)
+					}
+				}
+			}
+		}
+		nres := kit.N(36, 120)
+		for k := 0; k < nres; k++ {
+			pos := 1 + rng.Intn(n-1)
+			if len(candsConf) > 0 && k%3 != 2 {
+				pos = kit.Pick(rng, candsConf)
+			} else if len(cands) > 0 {
+				pos = kit.Pick(rng, cands)
+			}
+			kind := []string{"restart", "crash", "install", "install"}[k%4]
+			p := c09Plan{Name: fmt.Sprintf("%s@%d", kind, pos), MaxBatch: 1 + rng.Intn(16), Events: []c09Event{{Ord: pos, Kind: kind}}}
+			if kind == "install" && k%8 >= 4 {
+				p.Name += "-lagging"
+				p.Events = []c09Event{{Ord: 0, Kind: "lag"}, {Ord: pos, Kind: "install"}}
+			}
+			plans = append(plans, p)
+		}
+		for k := range plans {
+			plans[k].Stream = uint64(k%250 + 1)
+		}
+		r.Eval(len(plans) + 1)
+		for _, p := range plans {
+			for _, e := range p.Events {
+				if e.Kind == "install" || e.Kind == "restart" || e.Kind == "crash" {
+					r.Nontrivial(fmt.Sprintf("K%d/%s", sess, p.Name))
+				}
+			}
+		}
+		c09RunCase(r, env, fmt.Sprintf("K%d/", sess), l, plans, seed, 2_000_000+uint64(sess), rng)
+		if sess == 0 || kit.OnlyCase() != "" {
+			rend := l.render()
+			if len(rend) > 40 {
+				rend = rend[:40]
+			}
+			r.Sample(map[string]any{"session": sess, "leader_log_head": rend, "replicas": len(plans) + 1})
+		}
+	}
+	req := func(name string, quick int) { r.Require(name, int64(kit.N(quick, quick*6)/shards)) }
+	req("leader_txn_commit", 40)
+	req("leader_txn_conflict", 15)
+	req("leader_txn_lists", 60)
+	req("resets_inside_conflicting_txn_window", 15)
+	req("replica_runs", 60)
 }
